@@ -362,6 +362,7 @@ var _ = a[
 	p.q[0],
 )
 `,
+		"raw-strings": "package p\n\nimport (\n\t\"b\"\n\n\t\"a\"\n)\n\nvar s = `line1\nline2\nline3`\n\nfunc f() {\n\tg(1, `x\ny`)\n\th(`only\narg`, 2)\n\t_ = []string{\n\t\t`el\nem`,\n\t\t\"plain\",\n\t}\n\tk(`a\n\nb`, // trailing\n\t\t3)\n}\n\nconst c = `a\n` + \"b\"\n\nvar _ = a.X + b.Y\n",
 		"label-at-end": `package p
 
 func f(x int) {
